@@ -22,10 +22,10 @@ from symx import harness as H
 MOD = "harness.C12"
 
 
-def case_iterate_local(log, order):
+def case_iterate_local(log, order, its=1):
     ns, sg, ei, as4, ad = kernel_modules()
     log.encode(sg.eko_iterate, ad.exp_matrix_2D)
-    rp = (MOD, "replay_iterate", {"order": order})
+    rp = (MOD, "replay_iterate", {"order": order, "its": its})
     log.register_replay("fallback:replay_iterate", rp, _sampler)
 
     def run():
@@ -44,7 +44,7 @@ def case_iterate_local(log, order):
         saved = sg.ad
         sg.ad = AdSeries(saved)
         try:
-            E = sg.eko_iterate(gs, a1, a0, bet, (order, 0), 1)
+            E = sg.eko_iterate(gs, a1, a0, bet, (order, 0), its)
         finally:
             sg.ad = saved
         # exact series: dE/deps = a0 * gamma(a)/beta(a) E at a = a0 (1+eps)
@@ -59,7 +59,7 @@ def case_iterate_local(log, order):
             for j in range(2):
                 d = as_jet(E[i, j]) - Eex[i, j]
                 for k, c in residual_coeffs(d, 3):
-                    v = prove_zero(c, "eko_iterate order %d one step: [%d,%d] eps^%d coefficient of (step - exact)" % (order, i, j, k), timeout_ms=60000)
+                    v = prove_zero(c, "eko_iterate order %d, %d step(s) over a0 -> a0(1+eps): [%d,%d] eps^%d coefficient of (kernel - exact)" % (order, its, i, j, k), timeout_ms=60000)
                     log.decide(v, key="singlet.eko_iterate:%d:local-order" % order, replay=rp, sampler=_sampler)
         log.twin("domain")
         log.collect_ctx()
@@ -126,6 +126,61 @@ def case_rvec(log, order, M, is_exact):
                     log.decide(v, key="singlet.r_vec:%d:%s" % (order, "exact" if is_exact else "expanded"), replay=rp, sampler=_sampler)
         log.twin("domain")
         log.collect_ctx()
+
+    _r, pm = explore(run)
+    log.path_stats(pm)
+
+
+def case_routing(log, order):
+    """singlet.dispatcher hands each method to the documented kernel with the documented flags (kernels replaced by recorders)."""
+    ns, sg, ei, as4, ad = kernel_modules()
+    from eko.kernels import EvoMethods
+
+    log.encode(sg.dispatcher)
+    rp = (MOD, "replay_routing", {"order": order})
+    log.register_replay("singlet.dispatcher:routing", rp, _sampler)
+    names = ["lo_exact", "eko_iterate", "eko_perturbative", "eko_truncated", "nlo_decompose_exact", "nlo_decompose_expanded",
+             "nnlo_decompose_exact", "nnlo_decompose_expanded", "n3lo_decompose_exact", "n3lo_decompose_expanded"]
+    dec = {2: "nlo", 3: "nnlo", 4: "n3lo"}
+
+    def run():
+        a0, a1 = SR.var("a0"), SR.var("a1")
+        assume(a1 - a0, "!=0")
+        gs = singlet_gammas(order, "general")
+        calls = []
+        saved = {n: getattr(sg, n) for n in names}
+        for n in names:
+            setattr(sg, n, (lambda nm: (lambda *a: calls.append((nm, a)) or ("result", nm)))(n))
+        try:
+            for m in EvoMethods:
+                del calls[:]
+                out = sg.dispatcher((order, 0), m, gs, a1, a0, SR(4), 7, (order + 2, 0))
+                if order == 1:
+                    want = ("lo_exact", None)
+                elif m in (EvoMethods.ITERATE_EXACT, EvoMethods.ITERATE_EXPANDED):
+                    want = ("eko_iterate", {5: 7})
+                elif m == EvoMethods.PERTURBATIVE_EXACT:
+                    want = ("eko_perturbative", {5: 7, 6: (order + 2, 0), 7: True})
+                elif m == EvoMethods.PERTURBATIVE_EXPANDED:
+                    want = ("eko_perturbative", {5: 7, 6: (order + 2, 0), 7: False})
+                elif m in (EvoMethods.TRUNCATED, EvoMethods.ORDERED_TRUNCATED):
+                    want = ("eko_truncated", None)
+                elif m == EvoMethods.DECOMPOSE_EXACT:
+                    want = (dec[order] + "_decompose_exact", None)
+                else:
+                    want = (dec[order] + "_decompose_expanded", None)
+                ok = len(calls) == 1 and calls[0][0] == want[0] and out == ("result", want[0])
+                if ok and want[1]:
+                    ok = all(calls[0][1][i] == v for i, v in want[1].items())
+                if ok:
+                    # couplings in the documented slots (target first, then initial)
+                    ok = calls[0][1][1] is a1 and calls[0][1][2] is a0 and calls[0][1][0] is gs
+                v = S.Verdict("unsat" if ok else "sat", "dispatcher(order %d, %s) -> %s with the documented arguments" % (order, m.name, want[0]), None, {}, 0.0, None, 1)
+                log.decide(v, key="singlet.dispatcher:routing", replay=rp, sampler=_sampler)
+        finally:
+            for n, f in saved.items():
+                setattr(sg, n, f)
+        log.twin("domain")
 
     _r, pm = explore(run)
     log.path_stats(pm)
@@ -267,7 +322,7 @@ def _exact(gam, bet, a0, a1):
     return sol.y[:, -1].reshape(2, 2)
 
 
-def replay_iterate(point, order):
+def replay_iterate(point, order, its=1):
     import math
     import numpy as np
     import eko.kernels.singlet as sg
@@ -283,7 +338,7 @@ def replay_iterate(point, order):
     errs = []
     for e in epss:
         a1 = a0 * (1 + e)
-        errs.append(float(np.abs(np.array(sg.eko_iterate(g, a1, a0, bet, (order, 0), 1), dtype=complex) - _exact(g, bet, a0, a1)).max()))
+        errs.append(float(np.abs(np.array(sg.eko_iterate(g, a1, a0, bet, (order, 0), its), dtype=complex) - _exact(g, bet, a0, a1)).max()))
     pairs = [(e, x) for e, x in zip(epss, errs) if x > 1e-12]
     if len(pairs) < 2:
         return None
@@ -297,6 +352,39 @@ def replay_iterate(point, order):
     e40 = float(np.abs(np.array(sg.eko_iterate(g, a1, a0, bet, (order, 0), 40), dtype=complex) - ref).max())
     if e40 > 1e-11 and e10 / e40 < 8:
         return {"detail": "eko_iterate order %d: error with 10 steps %r, 40 steps %r: ratio %.1f < 8 (expected ~16)" % (order, e10, e40, e10 / e40)}
+    return None
+
+
+def replay_routing(point, order):
+    """real dispatcher vs direct calls of the documented kernels"""
+    import numpy as np
+    import eko.kernels.singlet as sg
+    from eko.kernels import EvoMethods
+    from eko import beta as B
+
+    rng = np.random.default_rng(41)
+    g = rng.normal(size=(order, 2, 2)) + 0.2j * rng.normal(size=(order, 2, 2))
+    a0, a1, nf = 0.03, 0.02, 4
+    bet = [B.beta_qcd((2 + i, 0), nf) for i in range(order)]
+    o, its, mo = (order, 0), 7, (order + 2, 0)
+    dec = {2: "nlo", 3: "nnlo", 4: "n3lo"}
+    for m in EvoMethods:
+        got = np.array(sg.dispatcher(o, m, g, a1, a0, nf, its, mo), dtype=complex)
+        if order == 1:
+            want = sg.lo_exact(g, a1, a0, bet)
+        elif m in (EvoMethods.ITERATE_EXACT, EvoMethods.ITERATE_EXPANDED):
+            want = sg.eko_iterate(g, a1, a0, bet, o, its)
+        elif m == EvoMethods.PERTURBATIVE_EXACT:
+            want = sg.eko_perturbative(g, a1, a0, bet, o, its, mo, True)
+        elif m == EvoMethods.PERTURBATIVE_EXPANDED:
+            want = sg.eko_perturbative(g, a1, a0, bet, o, its, mo, False)
+        elif m in (EvoMethods.TRUNCATED, EvoMethods.ORDERED_TRUNCATED):
+            want = sg.eko_truncated(g, a1, a0, bet, o)
+        else:
+            f = getattr(sg, dec[order] + ("_decompose_exact" if m == EvoMethods.DECOMPOSE_EXACT else "_decompose_expanded"))
+            want = f(g, a1, a0, nf) if order == 4 else f(g, a1, a0, bet)
+        if np.abs(got - np.array(want, dtype=complex)).max() > 1e-10 * max(1, np.abs(got).max()):
+            return {"detail": "singlet.dispatcher(order %d, %s) does not return the documented kernel: max deviation %r" % (order, m.name, np.abs(got - np.array(want, dtype=complex)).max())}
     return None
 
 
@@ -401,6 +489,10 @@ def main():
     chk.out_of_claim = ["the limit n->infinity, measured error constants, floating point"]
     for o in ((2, 3, 4) if thorough else (2, 3)):
         chk.case("iterate.local.o%d" % o, case_iterate_local, order=o)
+    for o in (2, 3):
+        chk.case("iterate.local.2steps.o%d" % o, case_iterate_local, order=o, its=2)
+    for o in (1, 2, 3, 4):
+        chk.case("dispatcher.routing.o%d" % o, case_routing, order=o)
     chk.case("u_vec.K4", case_uvec, K=4)
     if thorough:
         chk.case("u_vec.K6", case_uvec, K=6)
@@ -413,6 +505,12 @@ def main():
             if not thorough and od == (2, 1) and dim == 4:
                 continue  # ~8 min: thorough tier only
             chk.case("qed.step.o%d%d.dim%d" % (od[0], od[1], dim), case_qed_step, order=od, dim=dim)
+    # the caller side of the "supplied coupling steps": geometric a_s nodes and half-step couplings at the mu^2 midpoints
+    from . import opwire
+
+    for its in ((2, 3) if not thorough else (1, 2, 3)):
+        for running in (True, False):
+            chk.case("caller.aem_list.its%d.run%d" % (its, running), opwire.case_wiring, pid="C12", order=(2, 1), mode="unvaried", thr=False, its=its, running=running)
     # two steps: each step must use its own half-step couplings (running alpha_em) and its own interval
     chk.case("qed.2steps.o11.dim2", case_qed_step, order=(1, 1), dim=2, steps=2)
     if thorough:
